@@ -209,6 +209,7 @@ pub fn gen_ws(rng: &mut Rng, o: &WsOpts) -> WsSpec {
     let dirs = dir_tree(rng, o.max_dirs);
     let mut files: Vec<PyFile> = vec![];
     let mut imported_names: Vec<String> = vec![];
+    let mut extra_files: Vec<PyFile> = vec![];
     let mut helper_k = 0;
     for d in &dirs {
         // helper modules of this directory
@@ -287,6 +288,24 @@ pub fn gen_ws(rng: &mut Rng, o: &WsOpts) -> WsSpec {
             items.retain(|i| if let Item::Fixture(f) = i { !imported_here.contains(&f.name().to_string()) } else { true });
             let mut all = import_items;
             all.extend(items);
+            if o.imports && rng.chance(90) {
+                // `try: from .fast_impl_k import backend_k / except ImportError: from .slow_impl_k import backend_k`
+                // (the renderer writes the fallback): both modules exist, the one in the try body binds
+                helper_k += 1;
+                let fx = format!("backend_{}", helper_k);
+                let fast = join_rel(d, &format!("fast_impl_{}.py", helper_k));
+                let slow = join_rel(d, &format!("slow_impl_{}.py", helper_k));
+                extra_files.push(PyFile { rel: fast.clone(), items: vec![Item::Fixture(Fx { func: fx.clone(), ..Default::default() })] });
+                extra_files.push(PyFile { rel: slow, items: vec![Item::Fixture(Fx { func: "slow_only".into(), ..Default::default() }), Item::Fixture(Fx { func: fx.clone(), ..Default::default() })] });
+                all.insert(0, Item::Import { module: format!(".fast_impl_{}", helper_k), names: vec![fx], target: Some(fast) });
+            }
+            if o.imports && rng.chance(70) {
+                // an import that only type checkers execute: nothing it names is a fixture of this conftest
+                helper_k += 1;
+                let m = format!("typing_only_{}", helper_k);
+                extra_files.push(PyFile { rel: join_rel(d, &format!("{}.py", m)), items: vec![Item::Fixture(Fx { func: format!("tc_only_{}", helper_k), ..Default::default() })] });
+                all.insert(0, Item::Raw { text: format!("from typing import TYPE_CHECKING\nif TYPE_CHECKING:\n    from .{} import *\n", m) });
+            }
             files.push(PyFile { rel: join_rel(d, "conftest.py"), items: all });
             if helpers.iter().any(|_| true) && rng.chance(500) {
                 files.push(PyFile { rel: join_rel(d, "__init__.py"), items: vec![] });
@@ -323,6 +342,7 @@ pub fn gen_ws(rng: &mut Rng, o: &WsOpts) -> WsSpec {
             files.push(PyFile { rel, items });
         }
     }
+    files.extend(extra_files);
     if !files.iter().any(|f| f.items.iter().any(|i| matches!(i, Item::Test(_)))) {
         let d = rng.pick(&dirs).clone();
         let mut fo = o.file.clone();
@@ -348,7 +368,7 @@ pub fn gen_ws(rng: &mut Rng, o: &WsOpts) -> WsSpec {
             .iter()
             .filter(|f| {
                 let base = f.rel.rsplit('/').next().unwrap_or("");
-                f.rel.ends_with(".py") && base != "conftest.py" && base != "__init__.py" && !f.items.iter().any(|i| matches!(i, Item::Test(_))) && base != "orphan_fixtures.py" && base != "deep_orphan.py"
+                f.rel.ends_with(".py") && base != "conftest.py" && base != "__init__.py" && !f.items.iter().any(|i| matches!(i, Item::Test(_))) && base != "orphan_fixtures.py" && base != "deep_orphan.py" && !base.starts_with("slow_impl_") && !base.starts_with("fast_impl_") && !base.starts_with("typing_only_")
             })
             .map(|f| (f.rel.clone(), fixture_names_of(f)))
             .collect();
